@@ -29,7 +29,17 @@ LAYOUTS = {
     "a2": (["a"], 2),
     "ab2": (["a", "b"], 2),
     "e0": (["a"], 0),
+    # label lists that only differ in where a separator-like character sits / in the label's type: an unambiguous key keeps them apart
+    "x_y,z": (["x_y", "z"], 1),
+    "x,y_z": (["x", "y_z"], 1),
+    "int1": ([1], 1),
+    "str1": (["1"], 1),
+    "q1": (["a', 'b", "c"], 1),
+    "q2": (["a", "b', 'c"], 1),
+    "sp1": (["a b", "c"], 1),
+    "sp2": (["a", "b c"], 1),
 }
+ADVERSARIAL = [("x_y,z", "x,y_z"), ("int1", "str1"), ("q1", "q2"), ("sp1", "sp2")]
 
 
 class FakeFrame:
@@ -320,6 +330,9 @@ def concrete_samples():
 def configs(tier):
     one = [(("t", l),) for l in (("ab1", "ba1", "a1", "a2") if tier == "quick" else ("ab1", "ba1", "a1", "a2", "ab2", "e0"))]
     out = [(a, b, c) for a, b, c in itertools.product(one, repeat=3)]
+    for pair in ADVERSARIAL:
+        grp = [(("t", l),) for l in pair]
+        out += [(a, b, c) for a, b, c in itertools.product(grp, repeat=3)]
     two = [(("t", "a1"), ("u", "a1")), (("u", "a1"), ("t", "a1")), (("t", "a1"),), (("u", "a1"),), (("t", "ab1"), ("u", "ba1"))]
     out += [(a, b, c) for a, b, c in itertools.product(two, repeat=3)] if tier == "thorough" else \
            [(a, a, c) for a, c in itertools.product(two, repeat=2)] + [(a, c, c) for a, c in itertools.product(two, repeat=2)]
